@@ -11,7 +11,7 @@
 (***************************************************************************)
 EXTENDS OdeText, Json
 
-CONSTANTS Lvl          \* which universe (1..5 quick tier, 6..7 thorough tier)
+CONSTANTS Lvl          \* which universe (1..5 and 8 quick tier, 6..7 thorough tier; 8 = small families, always replayed completely)
 
 NumLexDef == ("0" :> <<0,1>>) @@ ("1" :> <<1,1>>) @@ ("2" :> <<2,1>>) @@ ("3" :> <<3,1>>) @@ ("4" :> <<4,1>>)
           @@ ("0.5" :> <<1,2>>) @@ ("0.25" :> <<1,4>>) @@ ("1.5" :> <<3,2>>) @@ ("0.1" :> <<1,10>>)
@@ -72,6 +72,18 @@ Signs(e1) == {Neg(Bn(o, e1, e2)) : o \in BinOps, e2 \in Leaves2}
          \cup {Bn("pow", e1, Bn("pow", e2, Neg(e3))) : e2 \in Leaves2, e3 \in {N("2"), X}}
          \cup {Neg(Bn("pow", Neg(e1), e2)) : e2 \in {N("2"), N("3")}}
 
+\* conditions on a parameter or on time only (a printer may treat them as "uniform"), Mod with a provably
+\* non-negative dividend and a divisor of either sign, unit-like small families
+ParamCond == {Cond(Rel(r, A, N("2")), X, Y) : r \in RelOps} \cup {Cond(Rel(r, T, N("1")), X, N("0.5")) : r \in RelOps}
+             \cup {Cond(And(<<Rel("Gt", A, N("0")), Rel("Lt", T, N("3"))>>), X, Y), Cond(Or(<<Rel("Le", A, N("0")), Rel("Ge", Tm, N("1.5"))>>), N("2"), Y),
+                   Bn("add", Cond(Rel("Gt", A, N("1")), N("1"), N("0")), X), Bn("mul", Cond(Rel("Lt", T, N("1")), A, N("2")), Y),
+                   Cond(Not(Rel("Eq", A, N("3"))), X, Neg(X))}
+ModSign == {Mod(nn, dd) : nn \in {Fn("abs", X), Fn("Abs", Y), Bn("mul", X, X), Fn("exp", X), Bn("pow", Y, N("2")), Fn("sqrt", Fn("abs", A)), N("3"), N("0.5")},
+                          dd \in {X, Y, A, Neg(N("3")), N("2"), Neg(N("0.5"))}}
+           \cup {Mod(nn, dd) : nn \in {X, Y, Neg(X), Bn("sub", X, A)}, dd \in {Fn("abs", A), Neg(Fn("abs", Y)), N("3"), Neg(N("2"))}}
+           \cup {Fn("floor", Neg(X)), Fn("floor", Bn("div", X, Y)), Fn("abs", Bn("sub", X, A)), Fn("floor", Bn("mul", Neg(N("0.5")), A))}
+SmallFamilies(c1) == NestC(c1)
+
 \* The universe of level Lvl is generated in two steps so that TLC's workers share the work and no
 \* large set of records has to be normalised:  PickA chooses the first slot, PickE everything else.
 Marker == [op |-> "marker"]
@@ -82,11 +94,13 @@ SlotA ==
     [] Lvl = 5 -> Leaves2
     [] Lvl = 6 -> B1
     [] Lvl = 7 -> U1
+    [] Lvl = 8 -> TinyBool \cup {Marker}
 Compose(a) ==
   CASE Lvl = 1 -> IF a = Marker THEN Leaves \cup U1 \cup B1 \cup SmallBool \cup TimeS ELSE Bool2(a) \cup CondS(a)
     [] Lvl = 2 -> Un({a})
     [] Lvl = 3 -> Bin(Leaves, {a}) \cup Bin({a}, Leaves)
-    [] Lvl = 4 -> IF a = Marker THEN CC \cup LitS ELSE Bool3(a) \cup Cond3(a) \cup NestC(a)
+    [] Lvl = 4 -> IF a = Marker THEN {} ELSE Bool3(a) \cup Cond3(a)
+    [] Lvl = 8 -> IF a = Marker THEN CC \cup LitS \cup ParamCond \cup ModSign ELSE NestC(a)
     [] Lvl = 5 -> Chain3(a) \cup Signs(a)
     [] Lvl = 6 -> Bin5({a}, B1)
     [] Lvl = 7 -> Bin5({a}, U1 \cup Leaves) \cup Un(Un({a}))
